@@ -110,7 +110,9 @@ def lowest_iter_sort(l, pkg_grabber=pkg_grabber):
     return l
 
 
-class MutableContainmentRestriction(values.base):
+class MutableContainmentRestriction(values.base, caching=False):
+    # wraps a live, mutable (hence unhashable) container: instances can't be
+    # cached on their arguments.
     __slots__ = ("_blacklist", "match")
 
     def __init__(self, blacklist):
